@@ -14,7 +14,7 @@ from vfw.core import Violation, must_return
 from vfw.model import stencil as M
 
 PROPERTY = "C10"
-SIZES = {"quick": 4000, "thorough": 80000}
+SIZES = {"quick": 6000, "thorough": 80000}
 RULE = (
     "Hypothesis draws a grid of 1-3 axes with arbitrary position sets (2-4 cells), an array position per axis, a registry: for "
     "a drawn family of axis subsets 1-3 metric variables at pairwise different position tuples (each position equal to the "
@@ -92,6 +92,39 @@ def strategy_impl(draw, tier):
             registry.append({"axes": [ax_], "vars": [{"name": f"m{k + 1}", "on": [b], "pos": [pb], "values": vals, "offset": 4.0 * (k + 1)}]})
         req = draw(st.permutations([a, b]))
         req_k = 2
+    elif len(names) == 3 and draw(st.integers(0, 3)) == 0:
+        # rank against location on purpose: all three axes requested, nothing registered for the triple, the one-axis
+        # metrics mostly at the array's position and the two-axis metrics mostly *not* - "largest block first" must win
+        # over "everything at the position" (and a block registered at the position over an interpolated one)
+        def opts3(a):
+            return by[a]["positions"] if apos[a] == "center" else sorted({apos[a], "center"}, key=by[a]["positions"].index)
+
+        registry = []
+        counter = 0
+        req = list(draw(st.permutations(names)))
+        req_k = 3
+        for s in [list(c) for k in (1, 2) for c in itertools.combinations(names, k)]:
+            if draw(st.integers(0, 7 if len(s) == 1 else 2)) == 0:
+                continue
+            at_pos = draw(st.sampled_from([True, True, True, False] if len(s) == 1 else [False, False, True]))
+            entries = []
+            seen = set()
+            for j in range(draw(st.sampled_from([1, 1, 2]))):
+                on = list(draw(st.permutations(s)))
+                pos = [apos[a] for a in on]
+                movable = [i for i, a in enumerate(on) if len(opts3(a)) > 1]
+                if movable and not (at_pos and j == 0):
+                    for i in draw(st.sets(st.sampled_from(movable), min_size=1)):
+                        pos[i] = draw(st.sampled_from([p for p in opts3(on[i]) if p != apos[on[i]]]))
+                key = frozenset(zip(on, pos))
+                if key in seen:
+                    continue
+                seen.add(key)
+                counter += 1
+                shape = [gen.pos_len(by[a]["n"], p) for a, p in zip(on, pos)]
+                vals = draw(gen.data_values(shape, elements=st.integers(1, 31).map(lambda q: q / 8.0)))
+                entries.append({"name": f"m{counter}", "on": on, "pos": pos, "values": vals, "offset": 4.0 * counter})
+            registry.append({"axes": s, "vars": entries})
     extra = draw(st.sampled_from([[], [], [["t", 2]]]))
     dims = [gen.dim_name(n, apos[n]) for n in names] + [e[0] for e in extra]
     sizes = {gen.dim_name(n, apos[n]): gen.pos_len(by[n]["n"], apos[n]) for n in names}
